@@ -25,7 +25,9 @@ Files == <<
   [apps |-> <<P(1, "auth")>>, avps |-> <<A(1, 5004, "X-D", 0, "Unsigned32")>>, cmds |-> <<>>],
   \* a renaming dictionary: base code 5001 / vendor 0 (X-A) and application 4's code 5002 / vendor 20 (X-B) under
   \* new names: the code now resolves to the new definition, the old names keep resolving
-  [apps |-> <<P(0, ""), P(4, "auth")>>, avps |-> <<A(0, 5001, "X-R", 0, "Unsigned32"), A(4, 5002, "X-S", 20, "Unsigned32")>>, cmds |-> <<>>] >>
+  [apps |-> <<P(0, ""), P(4, "auth")>>, avps |-> <<A(0, 5001, "X-R", 0, "Unsigned32"), A(4, 5002, "X-S", 20, "Unsigned32")>>, cmds |-> <<>>],
+  \* a "messages" file: an application and its command, no AVP at all (the vendor's AVPs come in another file)
+  [apps |-> <<P(77, "acct")>>, avps |-> <<>>, cmds |-> <<C(77, 602, "XM")>>] >>
 Defs(ld) == FlattenSeq([i \in 1..Len(ld) |-> Files[ld[i]].avps])
 Cmds(ld) == FlattenSeq([i \in 1..Len(ld) |-> Files[ld[i]].cmds])
 Apps(ld) == FlattenSeq([i \in 1..Len(ld) |-> Files[ld[i]].apps])
